@@ -42,4 +42,5 @@ pub mod fs {
     use vstd::prelude::*;
     use super::*;
     #[verifier::external_body] pub fn metadata(p: &PathBuf) -> (r: io::Result<Metadata>) ensures r matches Ok(m) ==> meta_len(&m) == path_size(p) { unimplemented!() }
+    #[verifier::external_body] pub fn create_dir_all<P>(p: P) -> io::Result<()> { unimplemented!() }
 }
